@@ -74,9 +74,9 @@ BlockLines(fo, g) ==
 NodeLines(x, g) ==
   <<[op |-> x.k, m |-> x.m, g |-> {}]>>
   \o BlockLines(x.t, g \cup {<<x.m, Positive(x.k)>>})
-  \o (IF x.he THEN <<[op |-> "else", m |-> 0, g |-> {}]>> \o BlockLines(x.e, g \cup {<<x.m, ~Positive(x.k)>>})
+  \o (IF x.he THEN <<[op |-> "else", m |-> x.m, g |-> {}]>> \o BlockLines(x.e, g \cup {<<x.m, ~Positive(x.k)>>})
       ELSE <<>>)
-  \o <<[op |-> "endif", m |-> 0, g |-> {}]>>
+  \o <<[op |-> "endif", m |-> x.m, g |-> {}]>>
 
 Lines(fo) == BlockLines(fo, {})
 \* what the renderer needs: the directive of every line (the text templates live in drivers/c12_render.py)
@@ -139,6 +139,37 @@ ReportExact(L, checked, reported, others) ==
 
 \* every started configuration ends up checked or skipped (no preprocessor / syntax failure on this family)
 AllSettled(cfgs) == \A i \in DOMAIN cfgs : cfgs[i].st \in {"checked", "skipped"}
+
+(***************************************************************************)
+(* Classes of Cover failures.  A region that no analysed configuration     *)
+(* compiles is described by where it sits in the structure; failures with  *)
+(* the same description are reported under one key (the description says   *)
+(* nothing about cppcheck's algorithm, only about the shape of the input): *)
+(*   "nested-under-if-not-defined"  an enclosing conditional is spelled    *)
+(*        `#if !defined(M)` and the region lies in a further conditional   *)
+(*        nested in it                                                     *)
+(*   "after-else-of-nested-sibling" before the region, inside one of the   *)
+(*        conditionals that enclose it, a conditional with #else was       *)
+(*        closed                                                           *)
+(*   both, or "other" (then the case is reduced and keyed by its core)     *)
+(***************************************************************************)
+LineOf(L, m, ops) == IF \E i \in DOMAIN L : L[i].m = m /\ L[i].op \in ops
+                     THEN CHOOSE i \in DOMAIN L : L[i].m = m /\ L[i].op \in ops ELSE 0
+IfLine(L, m) == LineOf(L, m, AllKinds)
+ElseLine(L, m) == LineOf(L, m, {"else"})
+EndLine(L, m) == LineOf(L, m, {"endif"})
+Enclosing(L, i) == {p[1] : p \in L[i].g}
+UnderNotDefined(L, i) ==
+  \E m \in Enclosing(L, i) : L[IfLine(L, m)].op = "ifnotdefined" /\ \E m2 \in Enclosing(L, i) : IfLine(L, m2) > IfLine(L, m)
+AfterElseSibling(L, i, n) ==
+  \E x \in (1..n) \ Enclosing(L, i) :
+     /\ ElseLine(L, x) > 0 /\ EndLine(L, x) < i
+     /\ \E a \in Enclosing(L, i) : IfLine(L, a) < IfLine(L, x) /\ EndLine(L, x) < EndLine(L, a)
+RegionClass(L, i, n) ==
+  IF UnderNotDefined(L, i) /\ AfterElseSibling(L, i, n) THEN "nested-under-if-not-defined+after-else-of-nested-sibling"
+  ELSE IF UnderNotDefined(L, i) THEN "nested-under-if-not-defined"
+  ELSE IF AfterElseSibling(L, i, n) THEN "after-else-of-nested-sibling"
+  ELSE "other"
 
 (***************************************************************************)
 (* Laws of the definitions (step "laws"), checked for every structure of   *)
@@ -208,14 +239,13 @@ FullOpts(n, c) ==
 LightOpts(n, c, salt) ==
   LET i == 1 + (salt % n)
       j == 1 + ((salt \div 7 + i) % n)
-  IN {NoOpt, Opt({}, {}, 0, TRUE), Opt({}, {}, c, FALSE), Opt({}, {}, IF c > 1 THEN c - 1 ELSE 1, FALSE),
-      Opt({i}, {}, 0, FALSE), Opt({}, {i}, 0, FALSE), Opt({i}, {}, 0, TRUE), Opt({}, {j}, c, FALSE)}
-     \cup (IF i # j THEN {Opt({i}, {j}, 0, TRUE)} ELSE {})
+  IN {NoOpt, Opt({}, {}, c, FALSE), Opt({}, {i}, 0, FALSE), Opt({i}, {}, 0, FALSE), Opt({i}, {}, 0, TRUE),
+      IF i # j THEN Opt({i}, {j}, 0, TRUE) ELSE Opt({}, {j}, c, FALSE)}
 
 OptOut(o) == [d |-> SetToSeq(o.d), u |-> SetToSeq(o.u), mc |-> o.mc, force |-> o.force]
 OptIn(r) == Opt({r.d[i] : i \in DOMAIN r.d}, {r.u[i] : i \in DOMAIN r.u}, r.mc, r.force)
 
-GenCases ==
+GenCases(u) ==
   LET NFull == EnvInt(IOEnv.NFULL)
       NPol == EnvInt(IOEnv.NPOL)
       Depth == EnvInt(IOEnv.DEPTH)
@@ -240,7 +270,7 @@ GenCases ==
         IF i <= Len(fullSeq) THEN CaseOf(fullSeq[i], i) ELSE CaseOf(polSeq[i - Len(fullSeq)], i)]
 
 ASSUME Step = "gen" =>
-  LET cs == GenCases
+  LET cs == GenCases(0)
   IN /\ ndJsonSerialize(IOEnv.OUT, cs)
      /\ PrintT(<<"GEN", Len(cs), "OPTCASES", FoldLeft(LAMBDA a, x : a + Len(x.opts), 0, cs)>>)
 
@@ -307,13 +337,16 @@ Judge(case, run, o, kk) ==
   IN [id |-> case.id, k |-> kk,
       failed |-> [i \in DOMAIN failed |-> failed[i].f],
       uncovered |-> SetToSeq({i \in Reachable(L, o) : ~\E c \in checked : Active(L[i].g, c)}),
+      \* the classes of the failure: of every uncovered region if only Cover failed, "other" for any other formula
+      classes |-> SetToSeq((IF \E j \in DOMAIN failed : failed[j].f # "Cover" THEN {"other"} ELSE {})
+                           \cup {RegionClass(L, i, n) : i \in {r \in Reachable(L, o) : ~\E c \in checked : Active(L[r].g, c)}}),
       expected |-> SetToSeq(UNION {ActiveSet(L, c) : c \in checked}),
       coverDemanded |-> CoverDemanded(L, o),
       nontrivial |-> \/ (CoverDemanded(L, o) /\ Cardinality(checked) >= 2)
                      \/ o.d \cap (1..n) # {} \/ o.u \cap (1..n) # {}]
 
 \* cases and observations are aligned line by line
-JudgeAll ==
+JudgeAll(u) ==
   LET cases == ndJsonDeserialize(IOEnv.CASES)
       obs == ndJsonDeserialize(IOEnv.OBS)
       J(i) == [k \in DOMAIN obs[i].runs |-> Judge(cases[i], obs[i].runs[k], OptIn(cases[i].opts[k]), k)]
@@ -328,7 +361,7 @@ JudgeAll ==
       nontrivial |-> Count(LAMBDA v : v.nontrivial)]
 
 ASSUME Step = "judge" =>
-  LET r == JudgeAll
+  LET r == JudgeAll(0)
   IN /\ r.complete
      /\ ndJsonSerialize(IOEnv.OUT, r.bad)
      /\ PrintT(<<"JUDGED", r.judged, "BAD", Len(r.bad), "COVERDEMANDED", r.coverDemanded, "NONTRIVIAL", r.nontrivial>>)
